@@ -1,5 +1,7 @@
 """Implementations of invertible non-linearities."""
 
+import math
+
 import numpy as np
 import torch
 from torch import nn
@@ -35,7 +37,9 @@ class Exp(Transform):
 class Tanh(Transform):
     def forward(self, inputs, context=None):
         outputs = torch.tanh(inputs)
-        logabsdet = torch.log(1 - outputs ** 2)
+        # log(1 - tanh(x)^2) = 2 * (log(2) - x - softplus(-2x)); the direct form is -inf as
+        # soon as tanh(x) rounds to 1 (|x| > 9 in single precision).
+        logabsdet = 2.0 * (math.log(2.0) - inputs - F.softplus(-2.0 * inputs))
         logabsdet = torchutils.sum_except_batch(logabsdet, num_batch_dims=1)
         return outputs, logabsdet
 
